@@ -124,9 +124,21 @@ def check_esc(case, known=False):
         if mode["m"] in ("volatile", "nested") and has_hcat and not known:
             raise core.Excluded()  # known finding F5
         s_on, entry, esrc = c15.mode_sources(templates, mode, True)
-        on = c15.stream(c15.make_env(s_on, mode, True, case.get("env")), entry, esrc, data, allowed)
-        s_off, entry, esrc = c15.mode_sources(templates, mode, False)
-        off = c15.stream(c15.make_env(s_off, mode, False, case.get("env")), entry, esrc, data, allowed)
+        overlay = case.get("env", {}).get("overlay", 0) if mode["m"] in ("static", "select") else 0
+        if overlay:
+            # the second environment is an overlay of the first one with the other autoescape setting, created after the
+            # first has loaded and rendered the templates (same loader, same names): 1 = off from on, 2 = on from off
+            first_on = overlay == 1
+            parent = c15.make_env(s_on, mode, first_on, case.get("env"))
+            first = c15.stream(parent, entry, esrc, data, allowed)
+            child = parent.overlay(autoescape=c15.ae_setting(mode, not first_on))
+            second = c15.stream(child, entry, esrc, data, allowed)
+            on, off = (first, second) if first_on else (second, first)
+            labels.add("env:overlay")
+        else:
+            on = c15.stream(c15.make_env(s_on, mode, True, case.get("env")), entry, esrc, data, allowed)
+            s_off, entry, esrc = c15.mode_sources(templates, mode, False)
+            off = c15.stream(c15.make_env(s_off, mode, False, case.get("env")), entry, esrc, data, allowed)
         differ = _compare("esc mode %s%s" % (c15._mode_name(mode), " env %s" % case["env"] if case.get("env") else ""), on, off, s_on) or differ
         if case.get("env", {}).get("async"):
             labels.add("env:async")
@@ -385,9 +397,13 @@ def check_case(case):
 # generation
 
 
+ENV_OPTS = c15.ENV_OPTS + [{"async": False, "sandbox": 0, "overlay": 1}, {"async": False, "sandbox": 0, "overlay": 2},
+                           {"async": True, "sandbox": 1, "overlay": 2}]
+
+
 def esc_cases(size):
     return st.builds(lambda p, d, m, e: {"kind": "esc", "templates": p["templates"], "data": d, "modes": c15.fit_modes(p["templates"], m), "env": e},
-                     escgen.programs(neutral=True, size=size), escgen.datas(), c15.modes(), st.sampled_from(c15.ENV_OPTS))
+                     escgen.programs(neutral=True, size=size), escgen.datas(), c15.modes(), st.sampled_from(ENV_OPTS))
 
 
 _STMT_MODES = st.sampled_from([[{"m": "static"}], [{"m": "static"}], [{"m": "static"}], [{"m": "region"}], [{"m": "region"}], [{"m": "volatile", "flag": "y"}]])
@@ -423,7 +439,7 @@ def run_shard(spec, ctx):
 
 def floors(total, tier):
     lab = total.labels
-    for need in ("mode:static", "mode:select", "mode:string", "mode:region", "mode:volatile", "mode:segments", "mode:nested", "env:async", "env:sandbox", "s:macro", "s:callblock", "s:caller",
+    for need in ("mode:static", "mode:select", "mode:string", "mode:region", "mode:volatile", "mode:segments", "mode:nested", "env:async", "env:sandbox", "env:overlay", "s:macro", "s:callblock", "s:caller",
                  "s:setblock", "s:filter", "s:include", "s:import", "s:from", "s:block", "s:super", "s:self", "s:recursive", "s:module_macro",
                  "stmt", "tset:inherit", "tset:modules"):
         if lab.get(need, 0) < 10:
